@@ -196,6 +196,8 @@ pub fn io(data: &[u8]) {
     let tensor = u.arbitrary::<bool>().unwrap_or(false) && fmt != 1;
     let et = u.int_in_range(0..=4u8).unwrap_or(0);
     let case = c17::Case {
+        layout: u.int_in_range(0..=3u8).unwrap_or(0),
+        prefill: u.int_in_range(0..=3u8).unwrap_or(0) == 0,
         fmt,
         tensor,
         etype: if tensor { et % 2 } else if fmt == 0 { et % 4 } else { et },
